@@ -130,7 +130,7 @@ void h_run(Case &c) {
       else { c.cls("loaded-consistent"); c.attempt("read-only battery on the loaded topology"); run_battery(t, fail_cb); }
       if (nmut) c.nontrivial();
     } else { c.cls("rejected-late"); if (nmut) c.nontrivial();
-      CHECK(c, hwloc_topology_set_synthetic(t, "pack:2 core:2 pu:2") == 0, "reconfigure_after_failure", "set_synthetic after a failed XML load failed"); CHECK(c, hwloc_topology_load(t) == 0, "reload_after_failure", "load after a failed XML load failed"); require_wf(c, t, "topology loaded after a failed XML load"); }
+      c.attempt("configure + load again after the failed load"); reload_after_failure(t, (unsigned)x.size(), fail_cb); require_wf(c, t, "topology loaded after a failed XML load"); }
   } else c.cls("rejected-early");
   if (nmut == 0) c.cls("unmutated");
   hwloc_topology_destroy(t); free(blk); if (viafile) unlink(path.c_str());
@@ -165,6 +165,11 @@ bool h_named(const std::string &name, Case &c) {
     std::string x = head + pus + " </object>\n</topology>\n"; size_t p = x.find("gp_index=\"4\""); x.replace(p, 12, "gp_index=\"4294967297\""); load_doc(c, x);
     hwloc_topology_t t; hwloc_topology_init(&t); hwloc_topology_set_xmlbuffer(t, x.c_str(), (int)x.size() + 1); CHECK(c, hwloc_topology_load(t) == 0, "named_setup", "document rejected"); WFError e; wf_check(t, e); CHECK(c, e.ok(), "named_setup", "ill-formed: %s", e.ok() ? "" : e.msgs[0].c_str()); hwloc_topology_check(t); hwloc_topology_destroy(t);
     return true; }
+  if (name == "F-C06-o") { c.desc("a document with CPU kinds that is rejected late, then a valid document with CPU kinds loaded into the same topology");
+    std::string bad = rich_xml(); size_t p = bad.rfind("</topology>"); CHECK(c, p != std::string::npos, "named_setup", "no closing tag"); bad.replace(p, std::string::npos, "<memattr name=\"x\" flags=\"77\" bogus=\"1\"/></topology>\n");
+    hwloc_topology_t t; hwloc_topology_init(&t); CHECK(c, hwloc_topology_set_xmlbuffer(t, bad.c_str(), (int)bad.size() + 1) == 0, "named_setup", "set failed"); CHECK(c, hwloc_topology_load(t) == -1, "named_setup", "the invalid document loaded");
+    for (unsigned v = 1; v <= 2; v++) { reload_after_failure(t, v, fail_cb); require_wf(c, t, "reloaded"); hwloc_topology_destroy(t); hwloc_topology_init(&t); hwloc_topology_set_xmlbuffer(t, bad.c_str(), (int)bad.size() + 1); hwloc_topology_load(t); }
+    hwloc_topology_destroy(t); return true; }
   if (name == "F-C11-c") { c.desc("object type \"die\\xe0\""); load_doc(c, head + "  <object type=\"die\xe0\" os_index=\"0\" cpuset=\"0x3\" complete_cpuset=\"0x3\" nodeset=\"0x1\" complete_nodeset=\"0x1\" gp_index=\"7\">\n" + pus + "  </object>\n </object>\n</topology>\n"); return true; }
   return false;
 }
